@@ -22,8 +22,11 @@
     §6 Algorithm 3     `ctfTR_zero_only_from_simplify`, `ctfTR_answer_shape`, `ctfTR_event_shape`,
                        `ctfTR_q_good` (Q of Algorithm 2 is never Zero() and has the expected vocabulary),
                        `ctfTR_no_internal_error_partial` (Algorithm 3 never raises outside its crash classes),
-                       `ctfTR_answers_or_fails`
-  OPEN (stated below): ctfTR_no_internal_error on the crash classes (false on one, open on two).
+                       `ctfTR_answers_or_fails`; the two further classes decided:
+                       `ctfTR_no_internal_error_found_partial` (`DstarOneWorld` is not needed),
+                       `ctfTR_no_internal_error_plain_partial` (`OutcomeNotCondition` is not needed for distributions over
+                       plain variables; needed for arbitrary ones: witness `a3Shared`)
+  OPEN (stated below): ctfTR_no_internal_error without `OutcomesFound` (FALSE of the current code: witness `a3Miss`).
   The VALUE clause is in Y0/Props/C09Sound.lean: `ctfTRu_sound_partial` (Algorithm 2, proved inside the decidable class
   `ctfSoundClass`), `ctfTR_sound_partial` (Algorithm 3, proved inside the decidable class `ctfTRSoundClass`);
   OPEN there: both clauses outside their classes.
